@@ -127,7 +127,7 @@ def gen_dec_cases(ctx):
                 b = bytearray(t); i = rng.randrange(len(b)); b[i] ^= 1 << rng.randrange(8)
                 add(bytes(b), "flip", nk=1, size_hint=n)
             elif m == 2:    # a byte outside the alphabet inside a line
-                b = bytearray(t); i = rng.randrange(len(b)); b[i] = rng.choice([10, 32, 61, 0x80, 0xff, 0, 45])
+                b = bytearray(t); i = rng.randrange(len(b)); b[i] = rng.choice([10, 32, 61, 0x80, 0xff, 0, 45, 42, 44, 46, 58, 64, 91, 96, 123, 127])   # incl. the neighbours of the alphabet ranges
                 add(bytes(b), "junk", nk=1, size_hint=n)
             elif m == 3:    # insert / delete a character: every later line break moves
                 i = rng.randrange(len(t))
@@ -195,6 +195,11 @@ def gen_dec_cases(ctx):
         for t in (b"A" * n, b"A" * n + b"\0", b"A" * n + b"=\n\0", b"=" * n + b"\0", bytes(rng.choice(cc.ALPHA) for _ in range(n)) + b"\0",
                   (b"AAAAAAAAAAB6" + b"A" * n)[:n] + b"=\n\0"):
             cases.append(dict(line=dec_line((0, 1, 1, 0), 64, t), text=t, kind=(0, 1, 1, 0), maxsz=64, tag="lengths"))
+    # every byte value once inside an otherwise valid text (all indices of the decoding table and both sides of it)
+    base_t = text_of(40, zlib.compress(bytes(range(40)), 9), 61)
+    for c in range(256):
+        t = base_t[:14] + bytes([c]) + base_t[15:]
+        cases.append(dict(line=dec_line((0, 1, 1, 0), 0, t), text=t, kind=(0, 1, 1, 0), maxsz=0, tag="bytevalue"))
     # the recorded defect: a declared size above 2^62, owner output, no maximum (known finding)
     for ns in ((1 << 63) + 8, (1 << 64) - 1):
         t = text_of(ns, zlib.compress(b"x" * 1000), 61)
